@@ -6,7 +6,7 @@ import vcommon as V
 PROP = "coq/C16/Properties_C16.v"
 EXTRACT = "coq/C16/Extract_C16.v"
 DRIVER = "props/C16/driver.ml"
-PROGS = {"c16unit": ["props/C16/unit.cpp"]}
+PROGS = {"c16unit": ["props/C16/unit.cpp"], "c16e2e": ["props/C16/e2e.cpp"]}
 WIDTHS_P2 = [1.0, 0.5, 0.25, 2.0, 0.125]
 WIDTHS_ANY = [0.75, 1.5, 0.375, 1.25]
 
@@ -299,6 +299,7 @@ def lap_oracle(c, v):
 def setup():
     V.extract_model("C16", EXTRACT, DRIVER, ["ocaml/fops.ml"])
     V.build_prog("c16unit", PROGS["c16unit"])
+    V.build_prog("c16e2e", PROGS["c16e2e"])
 
 
 def same(a, b):
@@ -672,7 +673,7 @@ def check(run):
     # ---------------- numerical experiment: second-order convergence to a smooth surface (up to a constant)
     conv_experiment(run, unit, r, quick)
     # ---------------- end to end: ABF through the engine simulator, the files it writes
-    e2e(run, r, quick)
+    e2e(run, r, quick, exes["c16e2e"], model)
     run.cov["correspondence"].update({"oned_ti_cases": len(cases), "div_cases": len(dlines), "atimes_cases": len(alines),
                                       "solve_cases": len(slines), "solve_converged": nconv})
 
@@ -747,13 +748,20 @@ def gen_e2e(r, k):
     if freq:
         nst = len(steps) - (len(steps) % 4)
         steps = steps[:max(4, nst)]
+    # force timing: same-step total forces, or lagged by one step (as in NAMD) with or without the engine including the
+    # Colvars forces in what it reports.  With lagged forces force_bin is the previous step's bin: the trajectories visit a
+    # random bin at every step, so bin != force_bin at most steps (2-D/3-D: a sample that lands in force_bin while the
+    # divergence is refreshed elsewhere shows in e2e:incremental-vs-batch and e2e:poisson)
+    same = r.random() < 0.4
+    incl = r.random() < 0.5
     return {"id": "e2e%d" % k, "nd": nd, "vars": vars_, "steps": steps, "full": r.choice([1, 2, 4]), "apply": r.random() < 0.5,
-            "ext": ext, "freq": freq}
+            "ext": ext, "freq": freq, "same": same, "incl": incl}
 
 
 def e2e_scenario(c):
     nd = c["nd"]
-    L = ["natoms %d" % nd, "samestep 1", "includecv 1", "temperature 300", "dt 1", "prefix %s" % c["id"]]
+    L = ["natoms %d" % nd, "samestep %d" % (1 if c.get("same", True) else 0), "includecv %d" % (1 if c.get("incl", True) else 0),
+         "temperature 300", "dt 1", "prefix %s" % c["id"]]
     if c.get("freq"):
         L += ["restartfreq 4"]
     L += ["new", "config EOF"]
@@ -775,17 +783,19 @@ def e2e_scenario(c):
         L.append("step")
     if not c.get("freq"):
         L.append("postrun")
+    if nd >= 2:
+        L.append("divcheck a")      # after the files are written: set_div() repairs a stale divergence
     return L
 
 
-def e2e(run, r, quick):
+def e2e(run, r, quick, exe=None, model=None):
     """ABF on 1-3 exact variables driven through the engine simulator; at the end of the run Colvars writes
     <prefix>.count/.grad/.pmf; oracle on those files alone: the written surface is the cumulative sum (1-D) or
     satisfies Laplacian(pmf) = divergence(grad) to the solver tolerance (2-D/3-D), minimum shifted to zero."""
     import itertools
-    exe = V.build_prog("vsim", ["harness/vsim_main.cpp"])
+    exe = exe or V.build_prog("c16e2e", PROGS["c16e2e"])
     d = V.scratch("C16")
-    ncase = 8 if quick else 80
+    ncase = 14 if quick else 120
     for k in range(ncase + 1):
         c = gen_e2e(r, k)
         degenerate = (k == ncase)
@@ -807,6 +817,7 @@ def e2e(run, r, quick):
         rep = {"kind": "e2e", "scenario": e2e_scenario(c)}
         run.count("e2e:" + json.dumps(c, sort_keys=True), True)
         run.dist("e2e:nd=%d,per=%s" % (c["nd"], "".join(str(int(v["per"])) for v in c["vars"])))
+        run.dist("e2e:forces=%s" % ("same-step" if c.get("same", True) else "lagged,includecv=%d" % c.get("incl", 1)))
         if degenerate:
             run.dist("e2e:single-point-periodic-dimension")
             if "CONFIG err=ok" in o:
@@ -818,6 +829,25 @@ def e2e(run, r, quick):
         if rc != 0 or ("POSTRUN err=ok" not in o and not c.get("freq")) or "CONFIG err=ok" not in o:
             run.violation("e2e:run", "the ABF scenario did not run to the end (rc=%d): %s" % (rc, (o + e)[-300:]), rep)
             continue
+        dc = [l for l in o.splitlines() if l.startswith("DIVCHECK ")]
+        if c["nd"] >= 2:
+            if not dc or dc[0].startswith("DIVCHECK none"):
+                run.violation("e2e:run", "no divergence array to inspect after the run: %s" % o[-200:], rep)
+            else:
+                parts = dc[0][len("DIVCHECK "):].split("|")
+                inc, bat = parse_floats(parts[3].split()), parse_floats(parts[4].split())
+                nsam = sum(int(x) for x in parts[2].split())
+                run.dist("e2e:divcheck-samples", nsam)
+                if not same(inc, bat):
+                    badi = [i for i, (x, y) in enumerate(zip(inc, bat)) if x != y and not (x != x and y != y)][:6]
+                    run.violation("e2e:incremental-vs-batch", "after an ABF run (%s forces, %d samples) the divergence kept up to date by colvarbias_abf::update differs from "
+                                  "set_div() of the accumulated gradients at flat index(es) %s: incremental %s, batch %s [%s]"
+                                  % ("same-step" if c.get("same", True) else "lagged", nsam, badi, [inc[i] for i in badi], [bat[i] for i in badi], c["id"]), rep)
+                if model:
+                    ml = "DIVSTATE " + parts[0].strip() + " | " + parts[1].strip() + " | " + parts[2].strip()
+                    rcm, mo, em = V.run_lines(model, [ml])
+                    if not mo or not same(parse_floats(mo[0].split()[1:]), inc):
+                        run.mismatch("abf-site-divergence", c["id"] + ": " + ml[:300], " ".join(parts[3].split()[:12]), (mo[0] if mo else em)[:300])
         pairs = [(".grad", ".pmf", ".count")] + ([(".czar.grad", ".czar.pmf", ".zcount")] if c.get("ext") else [])
         if c.get("ext"):
             run.dist("e2e:extended-lagrangian-czar")
@@ -899,7 +929,7 @@ def replay(path):
     rp = j["replay"]
     print(json.dumps(j, indent=1)[:3000])
     if rp.get("kind") == "e2e":
-        exe = V.build_prog("vsim", ["harness/vsim_main.cpp"])
+        exe = V.build_prog("c16e2e", PROGS["c16e2e"])
         d = V.scratch("C16")
         sc = os.path.join(d, "replay.scn")
         open(sc, "w").write("\n".join(rp["scenario"]) + "\n")
